@@ -14,10 +14,14 @@ from pathlib import Path
 
 VERIF = Path(__file__).resolve().parent.parent
 COQ = VERIF / "coq"
-GEN = COQ / "Gen"
+# VERIF_SCRATCH=<dir>: side runs (seeded-change trials, pre-fix worktrees) write their generated case
+# files, evidence and replays there instead of /verif, so that they cannot disturb a registered run
+SCRATCH = Path(os.environ["VERIF_SCRATCH"]).resolve() if os.environ.get("VERIF_SCRATCH") else None
+OUT = SCRATCH if SCRATCH else VERIF
+GEN = (SCRATCH / "Gen") if SCRATCH else COQ / "Gen"
 REPO = Path(os.environ.get("VERIF_REPO", "/repo"))
 COQ_FLAGS = ["-Q", "Model", "AM.Model", "-Q", "Lemmas", "AM.Lemmas", "-Q", "Props",
-             "AM.Props", "-Q", "Gen", "AM.Gen"]
+             "AM.Props", "-Q", str(GEN) if SCRATCH else "Gen", "AM.Gen"]
 # axioms a theorem may depend on (standard-library axioms only); empty = closed
 AXIOM_ALLOWLIST: set[str] = set()
 FORBIDDEN = re.compile(
@@ -167,7 +171,11 @@ def check_proofs(prop: str, thorough: bool = False) -> dict:
         res["wall_s"] = time.time() - t0
         return res
     # re-run coqc on the property file alone to capture Print Assumptions output
-    rc, out = sh(["coqc"] + COQ_FLAGS + [f"Props/{prop}.v"], cwd=COQ, timeout=1200)
+    extra = []
+    if SCRATCH:
+        SCRATCH.mkdir(parents=True, exist_ok=True)
+        extra = ["-o", str(SCRATCH / f"{prop}.vo")]
+    rc, out = sh(["coqc"] + COQ_FLAGS[:6] + extra + [f"Props/{prop}.v"], cwd=COQ, timeout=1200)
     if rc != 0:
         res["log"] = out[-4000:]
         res["failed_theorem"] = f"Props/{prop}.v"
@@ -209,10 +217,10 @@ def check_proofs(prop: str, thorough: bool = False) -> dict:
 
 # --------------------------------------------------------------------------- case evaluation
 def coq_eval_file(name: str, text: str, timeout=900) -> tuple[int, str]:
-    GEN.mkdir(exist_ok=True)
+    GEN.mkdir(parents=True, exist_ok=True)
     f = GEN / f"{name}.v"
     f.write_text(text)
-    rc, out = sh(["coqc"] + COQ_FLAGS + [f"Gen/{name}.v"], cwd=COQ, timeout=timeout)
+    rc, out = sh(["coqc"] + COQ_FLAGS + [str(f) if SCRATCH else f"Gen/{name}.v"], cwd=COQ, timeout=timeout)
     return rc, out
 
 
@@ -329,7 +337,7 @@ class Report:
         if self.violations > 8:
             return  # counted; the first ones are the replays
         h = hashlib.sha1(json.dumps(replay, sort_keys=True, default=str).encode()).hexdigest()[:12]
-        d = VERIF / "replays" / self.prop
+        d = OUT / "replays" / self.prop
         d.mkdir(parents=True, exist_ok=True)
         path = d / f"{h}.json"
         replay = dict(replay)
@@ -381,8 +389,8 @@ class Report:
             "wall_s": round(time.time() - self.t0, 2),
             "violations": self.violations,
         }
-        d = VERIF / "evidence"
-        d.mkdir(exist_ok=True)
+        d = OUT / "evidence"
+        d.mkdir(parents=True, exist_ok=True)
         (d / f"{self.prop}.json").write_text(json.dumps(ev, indent=1, default=str))
 
     def finish(self) -> int:
